@@ -879,7 +879,7 @@ class QasmProcessor:
         # creates custom-gate (if required) using gate defn and provided args
         if (
             command[0] not in self.predefined_gates
-            and command[0] not in custom_gates
+            and gate_name not in custom_gates
         ):
             n = len(reg_set[0])
             qc_temp = QubitCircuit(n)
